@@ -677,6 +677,124 @@ fn panic_site(stream: &[u8]) -> String {
     }
 }
 
+// ---------------------------------------------------------------- shrinking a failing table
+
+fn has_fail(o: &Outcome, kind: &str, sig: &str) -> bool {
+    o.fails.iter().any(|f| f.0 == kind && f.1 == sig)
+}
+
+/// segment index and offset of unit `k` under the cut list
+fn seg_of(cuts: &[(usize, bool)], k: usize) -> usize {
+    let mut pos = 0;
+    for (j, (n, _)) in cuts.iter().enumerate() {
+        if k < pos + n {
+            return j;
+        }
+        pos += n;
+    }
+    cuts.len()
+}
+
+/// smaller tables / layouts that still show the same failure (greedy; bounded number of driver calls)
+fn shrink_case(line: &str, kind: &str, sig: &str, drv: &mut Driver) -> Outcome {
+    let mut best = run_case(line, drv);
+    let (total, mut t, mut ls) = match parse_case(line) {
+        Some(x) => x,
+        None => return best,
+    };
+    let mut budget = 400;
+    let mut attempt = |t: &Vec<Entry>, ls: &Vec<Layout>, drv: &mut Driver, budget: &mut i32| -> Option<Outcome> {
+        if *budget <= 0 {
+            return None;
+        }
+        *budget -= 1;
+        let o = run_case(&wire_table(total.min(9), t, ls), drv);
+        if has_fail(&o, kind, sig) {
+            Some(o)
+        } else {
+            None
+        }
+    };
+    // 1. a single entry
+    if t.len() > 1 {
+        for i in 0..t.len() {
+            let (t1, l1) = (vec![t[i].clone()], vec![ls[i].clone()]);
+            if let Some(o) = attempt(&t1, &l1, drv, &mut budget) {
+                t = t1;
+                ls = l1;
+                best = o;
+                break;
+            }
+        }
+    }
+    // 2. per entry: drop blocks, the leading break, cuts, units
+    let mut improved = true;
+    while improved && budget > 0 {
+        improved = false;
+        for i in 0..t.len() {
+            let mut cands: Vec<(Entry, Layout)> = vec![];
+            let (e, l) = (&t[i], &ls[i]);
+            if e.runs.is_some() {
+                cands.push((Entry { runs: None, ..e.clone() }, Layout { run_cuts: vec![], ..l.clone() }));
+            }
+            if e.ext.is_some() {
+                cands.push((Entry { ext: None, ..e.clone() }, Layout { ext_cuts: vec![], ..l.clone() }));
+            }
+            if l.cut_before {
+                cands.push((e.clone(), Layout { cut_before: false, ..l.clone() }));
+            }
+            for j in 0..l.cuts.len() {
+                let mut l2 = l.clone();
+                let (n, w) = l2.cuts[j];
+                if j == 0 {
+                    l2.wide0 |= w;
+                } else {
+                    l2.cuts[j - 1].1 |= w;
+                }
+                if j + 1 < l2.cuts.len() {
+                    l2.cuts[j + 1].0 += n;
+                }
+                l2.cuts.remove(j);
+                cands.push((e.clone(), l2));
+            }
+            for k in (0..e.units.len()).rev().take(40).chain(0..e.units.len().min(8)) {
+                let mut e2 = e.clone();
+                e2.units.remove(k);
+                if String::from_utf16(&e2.units).is_err() {
+                    continue;
+                }
+                let mut l2 = l.clone();
+                let j = seg_of(&l2.cuts, k);
+                if j < l2.cuts.len() {
+                    if l2.cuts[j].0 <= 1 && j > 0 {
+                        continue;
+                    }
+                    l2.cuts[j].0 -= 1;
+                } else if !l2.cuts.is_empty() && e2.units.len() <= l2.cuts.iter().map(|c| c.0).sum::<usize>() {
+                    continue; // the last segment would become empty
+                }
+                cands.push((e2, l2));
+            }
+            for (e2, l2) in cands {
+                let (mut t2, mut ls2) = (t.clone(), ls.clone());
+                t2[i] = e2;
+                ls2[i] = l2;
+                if let Some(o) = attempt(&t2, &ls2, drv, &mut budget) {
+                    t = t2;
+                    ls = ls2;
+                    best = o;
+                    improved = true;
+                    break;
+                }
+            }
+            if improved {
+                break;
+            }
+        }
+    }
+    best
+}
+
 // ---------------------------------------------------------------- stage D: whole files
 
 fn split_payloads(stream: &[u8]) -> Vec<Vec<u8>> {
@@ -1085,6 +1203,15 @@ fn run_job_inner(job: &Job, drv: &mut Driver) -> Vec<Outcome> {
                 let ls = make_layout(&t, &mut rng, &st);
                 let line = wire_table(total, &t, &ls);
                 let mut o = run_case(&line, drv);
+                // a failing legal layout: report the shrunk table under the same signature as well
+                if let Some(f) = o.fails.iter().find(|f| f.0 != "model_vs_spec").cloned() {
+                    if line.len() > 120 {
+                        let small = shrink_case(&line, &f.0, &f.1, drv);
+                        for sf in small.fails.iter().filter(|sf| sf.0 == f.0 && sf.1 == f.1) {
+                            o.fails.push(sf.clone());
+                        }
+                    }
+                }
                 if o.counters.iter().any(|c| c.0 == "sst.layout_not_legal") {
                     o.fail("model_vs_spec", "generator_produced_illegal_layout", "", "", "");
                 }
